@@ -11,7 +11,7 @@
    History: before /repo commit b6cc8ee the results of the writes and of fclose were ignored (F14). *)
 From Coq Require Import List ZArith Bool.
 Import ListNotations.
-From LC Require Import Base Tree Api WriteFile RwFacts StdioModel StdioFacts.
+From LC Require Import Base Tree Api WriteFile RwFacts StdioModel StdioFacts StdioCap.
 Local Open Scope Z_scope.
 
 (* success is reported exactly when the open succeeded, the whole text fitted, the requested fsync
@@ -96,3 +96,31 @@ Example C12_stdio_variants_refuted :
   write_file_skip_variant 4 [WAll; WFail; WAll; WAll] true true true ex_text = (true, [48; 49; 50; 51; 57]%Z) /\
   write_file_close_variant 4 [WAll; WFail; WAll; WAll] true ex_text = (true, [48; 49; 50; 51; 57]%Z).
 Proof. vm_compute. repeat split. Qed.
+
+(* ---- the two models are one (StdioCap.v): the stdio model with a state-dependent oracle for the write(2) calls, the capacity
+   device as the oracle "everything that fits is written, then every call fails"; the device model write_file - the one the
+   extracted driver runs against the real function - is that instance, for every buffer size B and every split k ---- *)
+Theorem C12_capacity_device_is_stdio_instance : forall (B : nat) text fsync_opt d k,
+  dv_open_fails d = false ->
+  match dv_cap d with Some c => (0 <= c) \/ text <> nil | None => True end ->
+  let r := write_file text fsync_opt d k in
+  let m := write_file_model_o (cap_orc (dv_cap d)) B fsync_opt (negb (dv_fsync_fails d)) (negb (dv_close_fails d)) text in
+  wf_ok r = fst m /\ wf_content r = Some (snd m).
+Proof. exact cap_instance. Qed.
+Print Assumptions C12_capacity_device_is_stdio_instance.
+
+(* whatever the write(2) calls do, as a function of what the file holds and of what is offered: success => complete *)
+Theorem C12_stdio_oracle_success_complete : forall orc B fsync_opt fsync_ok close_ok text,
+  fst (write_file_model_o orc B fsync_opt fsync_ok close_ok text) = true ->
+  snd (write_file_model_o orc B fsync_opt fsync_ok close_ok text) = text.
+Proof. exact write_file_success_complete_o. Qed.
+Print Assumptions C12_stdio_oracle_success_complete.
+
+(* closed form under a capacity c >= 0: success iff the text fits and fsync / close succeed; otherwise the file holds the
+   first c bytes *)
+Theorem C12_capacity_closed_form : forall c, 0 <= c -> forall B fsync_opt fsync_ok close_ok text,
+  write_file_model_o (cap_orc (Some c)) B fsync_opt fsync_ok close_ok text =
+  ((Z.of_nat (List.length text) <=? c) && (if fsync_opt then fsync_ok else true) && close_ok,
+   if (Z.of_nat (List.length text) <=? c) then text else firstn (Z.to_nat c) text).
+Proof. exact cap_model. Qed.
+Print Assumptions C12_capacity_closed_form.
